@@ -584,8 +584,13 @@ def translate():
             except Unsupported as e:
                 missing.append('%s: %s' % (nm, e))
     out.append('end Py\n')
-    out.append('/-- functions the translator could not translate (must be empty for the proofs to build) -/')
-    out.append('def Gen.codeMissing : List String := [%s]\n' % ', '.join(json.dumps(m) for m in missing))
+    stack_names = ('get_shape_counts', 'chk_order_check', 'get_data_trim', 'get_data', 'file_idx')
+    m_stack = [m for m in missing if m.startswith(stack_names)]
+    m_meta = [m for m in missing if not m.startswith(stack_names)]
+    out.append('/-- functions of dcmmeta.py the translator could not translate (must be empty) -/')
+    out.append('def Gen.codeMissingMeta : List String := [%s]\n' % ', '.join(json.dumps(m) for m in m_meta))
+    out.append('/-- functions of dcmstack.py the translator could not translate (must be empty) -/')
+    out.append('def Gen.codeMissingStack : List String := [%s]\n' % ', '.join(json.dumps(m) for m in m_stack))
     return '\n'.join(out), missing
 
 
